@@ -142,6 +142,7 @@ def cases(enc):
         "others": st.lists(st.one_of(st.sampled_from(PROVOKERS),
                                      st.sampled_from(PROVOKERS), gv.modules(enc)),
                            min_size=1, max_size=3),
+        "iterval": st.sampled_from([None] * 9 + [0, 1, 2, 3, 4]),
         "style": st.sampled_from(["instance", "instance-interleaved",
                                   "instance-interleaved", "dumps-fresh",
                                   "dumps-default", "other-encoder-registers",
@@ -154,6 +155,13 @@ def run_case(case):
     before, ids = snap(m)
     encoder = make_encoder(enc, **cfg)
     unrelated = [gv.build_module(o) for o in case.get("others", [])]
+    if case.get("iterval") is not None:
+        # a value that can be read only once (what map(), zip() or a generator give):
+        # refused or written - but the same every time, and still there afterwards
+        kinds = [lambda l: iter(l), lambda l: map(int, l), lambda l: (x for x in l),
+                 lambda l: zip(l, l), lambda l: reversed(l)]
+        m.append("ONE_SHOT", kinds[case["iterval"] % len(kinds)]([10, 20, 30]))
+        before, ids = snap(m)
     if style == "other-encoder-registers":
         # the module holds a float subclass with .value/.units; between the calls
         # *another* encoder object is told to treat that class as a quantity
